@@ -7,6 +7,7 @@ package xlatesample
 
 import (
 	"encoding/binary"
+	"errors"
 	"math"
 	"sort"
 )
@@ -224,3 +225,112 @@ func SortDesc(l []int32) ([]int32, int32) {
 	return v, s
 }
 func StrOrder(a, b string) (bool, bool, bool, bool) { return a < b, a <= b, a > b, a >= b }
+func LoopCut(src []byte, n int8) ([]byte, int, int) {
+	var cur []byte
+	cur = append(cur, src...)
+	total, rounds := 0, 0
+	for {
+		rounds++
+		if len(cur) < 2 {
+			break
+		}
+		k := int(cur[0])
+		if k == 0 {
+			return cur, total, -1
+		}
+		if k > len(cur) {
+			break
+		}
+		pkg := make([]byte, k+1)
+		copy(pkg, cur[:k])
+		cur = cur[k:]
+		total += int(pkg[k-1]) + len(pkg)
+		if len(cur) > int(n) {
+			continue
+		}
+		cur = nil
+		break
+	}
+	return cur, total, rounds
+}
+
+// a struct with a member outside the subset (left out of the generated record) and assignments to single members
+type Pkt struct {
+	Ver  int16
+	Id   int32
+	Tags map[string]string
+	Ret  int32
+	Desc string
+}
+
+func FillPkt(ver int16, code int32, bad bool) Pkt {
+	p := Pkt{}
+	p.Ver = ver
+	p.Id = code + 1
+	if bad {
+		p.Ret = 1
+		p.Desc = "bad"
+		if code > 1 {
+			p.Ret = code
+		}
+	}
+	p.Ver = p.Ver + int16(p.Ret)
+	return p
+}
+
+// error values: nil, errors.New(text), a pointer to the package's error struct (unit option ErrVals)
+type E struct {
+	Code int32
+	Msg  string
+}
+
+func (e *E) Error() string { return e.Msg }
+
+func MapErr(ret int32, desc string) error {
+	if ret != 0 {
+		if desc == "" {
+			desc = "none"
+		}
+		if ret != 0 && ret != 1 {
+			return &E{Code: ret, Msg: desc}
+		}
+		return errors.New(desc)
+	}
+	return nil
+}
+
+// a counted loop whose bound is a second variable of the init statement
+func SumTo(n int8, from int8) int {
+	t := 0
+	for i, e := from, n; i < e; i++ {
+		t += int(i) * 3
+	}
+	return t
+}
+
+// the translator's normalisations (design/XLATE.md section 8): negated and flipped comparisons, constants on the left,
+// inverted ifs, chains of pure conditions (emitted in a canonical order), loop headers written with > and += 1
+func NormCmp(a, b int8) (bool, bool, bool, bool, int) {
+	r := 0
+	if !(a < b) {
+		r += 1
+	} else {
+		r += 2
+	}
+	if 3 == a {
+		r += 4
+	}
+	if !(a != b) {
+		r += 8
+	}
+	for i := int8(0); b > i; i += 1 {
+		r += 16
+	}
+	return !(a <= b), !(a == b), b > a && a > -5 && 7 != b, !!(a >= b), r
+}
+
+// a chain with an operand that can panic keeps its order and its laziness
+func GuardOrder(s []byte, i int8) (bool, bool) {
+	return int(i) < len(s) && i >= 0 && s[i] == 7, i >= 0 && int(i) < len(s) && s[i] == 7
+}
+func GuardPanic(s []byte, i int8) bool { return s[i] == 7 && int(i) < len(s) }
